@@ -39,10 +39,10 @@ type jop struct {
 	Skip  bool     `json:"skip,omitempty"`
 	Rev   bool     `json:"rev,omitempty"`
 	Cb    *jcb     `json:"cb,omitempty"`
-	F     string   `json:"f,omitempty"`  // field / vector name (hex)
+	F     string   `json:"f,omitempty"` // field / vector name (hex)
 	Vec   bool     `json:"vec,omitempty"`
-	I     uint64   `json:"i,omitempty"`  // vector index
-	N     uint64   `json:"n,omitempty"`  // uint64 value
+	I     uint64   `json:"i,omitempty"` // vector index
+	N     uint64   `json:"n,omitempty"` // uint64 value
 }
 type jcase struct {
 	Ops []jop `json:"ops"`
@@ -602,10 +602,10 @@ func (e *env) coqOp(o jop) string {
 // ---------------------------------------------------------------- reference: one sorted map per index, one map of fields
 
 type refWrite struct {
-	ix   string // index name, or "" for a field
-	k    string
-	v    []byte
-	del  bool
+	ix  string // index name, or "" for a field
+	k   string
+	v   []byte
+	del bool
 }
 type ref struct {
 	idx    map[string]map[string][]byte
@@ -897,8 +897,8 @@ func runHistory(run *hx.Run, ops []jop, oracleOn bool) {
 
 var indexNames = []string{"raw-a", "bin-b", "ts-c", "raw-d"}
 
-func hexs(b []byte) string  { return hx.Hex(b) }
-func sp(s string) *string   { h := hexs([]byte(s)); return &h }
+func hexs(b []byte) string { return hx.Hex(b) }
+func sp(s string) *string  { h := hexs([]byte(s)); return &h }
 
 func genKey(r *hx.Rand, kind string) []byte {
 	switch kind {
